@@ -21,6 +21,10 @@ const (
 	// MaxMembers bounds the size of a configuration the generators aim for.
 	MaxMembers = 5
 	maxNet     = 384
+	// queue lengths of nodes built through the hook's mirror constructors; a case never
+	// queues that much between two StepNode calls
+	simRecvQueue = 512
+	simPropQueue = 512
 )
 
 func groupOf(id uint64) pb.Group {
@@ -44,11 +48,15 @@ type Params struct {
 	KeepLastAppResp bool
 	// RestartTicks: restartNode calls advanceTicksForElection(ElectionTick-1 ticks).
 	RestartTicks bool
+	// RealCtor: build nodes with raft.StartNode / raft.RestartNode themselves (14 MB of
+	// queues per node object); otherwise with the hook's mirrors that differ only in
+	// the queue lengths (see raft/verif_raftsim.go and SelfTestConstructors).
+	RealCtor bool
 }
 
 func (p Params) String() string {
-	return fmt.Sprintf("n=%d prevote=%v checkquorum=%v election=%d/%d maxmsg=%d maxcommitted=%d inflight=%d storage=%s seed=%d keepLastAppResp=%v restartTicks=%v",
-		p.N, p.PreVote, p.CheckQuorum, p.ElectionTick, p.HeartbeatTick, p.MaxSizePerMsg, p.MaxCommittedSize, p.MaxInflight, p.Storage, p.Seed, p.KeepLastAppResp, p.RestartTicks)
+	return fmt.Sprintf("n=%d prevote=%v checkquorum=%v election=%d/%d maxmsg=%d maxcommitted=%d inflight=%d storage=%s seed=%d keepLastAppResp=%v restartTicks=%v realCtor=%v",
+		p.N, p.PreVote, p.CheckQuorum, p.ElectionTick, p.HeartbeatTick, p.MaxSizePerMsg, p.MaxCommittedSize, p.MaxInflight, p.Storage, p.Seed, p.KeepLastAppResp, p.RestartTicks, p.RealCtor)
 }
 
 // CrashPoint names the stage boundary of processReady at which a replica dies.
@@ -174,6 +182,9 @@ type Sim struct {
 	// KnownSingleVoter: when set, crash points that would lose entries a single-voter
 	// leader has already published (known finding) are replaced by later ones.
 	Known map[string]bool
+	// LivenessExcluded: an exclusion interfered with progress (see Deliver); a "stuck"
+	// verdict on this case would be the exclusion's doing.
+	LivenessExcluded bool
 
 	seq       int
 	nProposed int
@@ -234,7 +245,13 @@ func (s *Sim) startFresh(r *Replica, peers []raft.Peer, learner bool) {
 	r.App = App{}
 	r.OutSnap = map[uint64]int{}
 	r.LastHSTerm, r.SoftLead, r.ReplayLast = 0, 0, 0
-	if p := s.guard(r, "StartNode", func() { r.Node = raft.StartNode(s.config(r), peers, learner) }); p {
+	if p := s.guard(r, "StartNode", func() {
+		if s.P.RealCtor {
+			r.Node = raft.StartNode(s.config(r), peers, learner)
+		} else {
+			r.Node = raft.VerifStartNode(s.config(r), peers, learner, simRecvQueue, simPropQueue)
+		}
+	}); p {
 		return
 	}
 	r.Up = true
@@ -462,6 +479,18 @@ func (s *Sim) Deliver(k int) *Replica {
 	if to == nil || !to.Up {
 		s.ev("lost", f.M.To, "(down) "+msgBrief(&f.M))
 		s.noteSnapOutcome(f, false)
+		return nil
+	}
+	if f.M.Type == pb.MsgSnap && ((s.Known[KnownRocksStaleTail] && s.P.Storage != StoreMem && s.Peek(to).Last > f.M.Snapshot.Metadata.Index) ||
+		(s.Known[KnownWalResurrect] && s.wouldResurrect(to, f.M.Snapshot, f.M.Snapshot.Metadata.Index, nil))) {
+		// trigger of a finding: a snapshot restored under a longer log (RocksStorage keeps
+		// the tail) / into a WAL that still holds entry records above it (a restart reads
+		// them back). The message is lost instead (legal), but losing it every time may keep the replica from ever
+		// catching up: liveness verdicts of this case are void.
+		s.LivenessExcluded = true
+		s.St.ExcludedKnown++
+		s.St.Dropped++
+		s.ev("lost", f.M.To, "(excluded: known finding) "+msgBrief(&f.M))
 		return nil
 	}
 	s.St.Delivered++
